@@ -496,10 +496,15 @@ def run(tier: str, seed: int, replay: str | None = None) -> int:
         for f in json.loads(kd.read_text()).get("findings", []):
             if f.get("property") == PROP and f.get("status") == "known":
                 chk.known["known"].setdefault(f["key"], f)
-    chk.rule = ("seeded multi-language projects (3-12 files in nested directories, Python/TypeScript/JavaScript, hard-excluded and "
-                ".thailintignore'd paths, files sharing duplicate code blocks, constants and string-set patterns) with histories of 3-12 "
-                "operations (Orchestrator.lint_file / lint_files / lint_directory, Linter.lint on a file or directory, edit, delete, add) "
-                "on one long-lived Linter, each lint call repeated on a fresh Linter; a history is non-trivial when some lint call follows "
+    chk.rule = ("seeded multi-language projects (3-14 files in nested directories, Python/TypeScript/JavaScript/Rust, hard-excluded and "
+                ".thailintignore'd paths) with EVERY registered rule running; files are built from snippets that trigger the cross-file rules "
+                "(shared blocks, constants, string sets, `# dry: ignore-...` comments), from the documented examples of every linter "
+                "(docs/*-linter.md) and from snippets that interact by name across files (the same identifier is a module alias / a string "
+                "accumulator / a class in one file and something else in another); histories of 3-12 operations "
+                "(Orchestrator.lint_file / lint_files / lint_directory, Linter.lint on a file or directory, edit, delete, add, a change of "
+                ".thailintignore followed by the construction of a new Linter in the same process, working directory = project root) "
+                "on one long-lived Linter, each lint call repeated on a Linter built as in a fresh process; per-file tables are measured on "
+                "fresh single-file runs, so a rule that carries state from one file to the next is reported; a history is non-trivial when some lint call follows "
                 "an earlier lint call and reports at least one cross-file finding on either object; distinct = distinct (project, history); "
                 "plus CLI runs under several PYTHONHASHSEED values, with permuted path arguments, and file-system snapshots around "
                 "every linter command (sequential/parallel, both DRY storage modes)")
@@ -510,7 +515,8 @@ def run(tier: str, seed: int, replay: str | None = None) -> int:
         "independence of PYTHONHASHSEED is observed on CLI runs, not proved (the model has no hash values)",
         "os.walk order is an oracle: each directory call carries the listing observed at that moment",
         "suppression comments: generated Python files carry `# dry: ignore-block` / `# dry: ignore-next` comments, whose per-run lifetime in DRYRule is modelled (rows that outlive a run lose their ranges: measured with the comments neutralised); `thailint:` directives and the caches behind them (stringly-typed IgnoreChecker._file_content_cache, has_file_ignore reading the disk) are outside the model and absent from generated files",
-        "configuration and .thailintignore are fixed for the life of an object; the process-wide ignore-parser singleton is reset before every fresh baseline object (so a 'fresh object' means one in a fresh process)",
+        "configuration is read when an object is built: histories change .thailintignore only right before building a new Linter (hist_synced, a hypothesis of the theorems); the config dict itself never changes; a 'fresh object' is one built in a fresh process (the ignore-parser singleton is dropped for baseline and measurement objects and put back for the object under test); the process works in its project root (with another working directory the rule constructors re-key the singleton and the stale-parser defect is masked)",
+        "cross-file reports of files under directories that histories add to / remove from .thailintignore are kept empty by construction (the reports filter by the patterns current at finalize time, which the measured report tables do not carry)",
         "single-shot report measurements memoise the DRY FileAnalyzer.analyze function per (path, content) inside the measuring worker process (harness-side wrapper, nothing under /repo is touched) and use storage_mode memory",
     ]
     import time as _t
